@@ -43,6 +43,8 @@ let () =
     out_sv "FDACC" (List.map (fun (i, (_, (a, _))) -> (i, a)) fdr);
     out_cat "RUD" (List.map (fun (i, (_, (_, u))) -> (i, u)) fdr);
     out_sv "RACC" (List.map (fun (i, (_, (a, _))) -> (i, a)) fdr);
+    out_sv "REACT" (out_react_art fops t);
+    out_sv "REACTFB" (out_react_fb fops t);
     let mi = out_minv fops t in
     out_cat "MINV" mi; out_cat "MINVMAT" mi;
     let ab = byidx (out_abi fops t) in
